@@ -616,6 +616,14 @@ def pred_forms(case):
     array with the same values;  (buffer) with a caller-supplied `alphas` buffer, zeroed or dirty, the routine must return
     the same table as without one and leave it in the buffer"""
     P, qp, J = _impl()
+    if case['item'] == 'signedm':
+        cs, j, m = case['cs'], case['j'], case['m']
+        usq = np.array(case['upts'], dtype=float) ** 2
+        exp = np.array(qp.clenshaw_q2d_der(cs, m, usq, j=j), dtype=float)
+        got = np.array(qp.clenshaw_q2d_der(cs, -m, usq, j=j), dtype=float)
+        sc = float(np.max(np.abs(exp))) if exp.size else 0.0
+        return (got.shape == exp.shape and close(got, exp, extra_scale=sc)), (
+            f'clenshaw_q2d_der(m=-{m}) table {np.ravel(got)[:4]}; with m=+{m} (the radial polynomials are those of |m|) {np.ravel(exp)[:4]}')
     if case['item'] == 'buffer':
         rt, cs, j, m = case['routine'], case['cs'], case['j'], case['m']
         x = np.array(case['pts'] if rt == 'jder' else case['upts'], dtype=float)
@@ -718,7 +726,7 @@ def pred(case):
     try:
         if it == 'alias':
             return I(pred_alias, case)
-        if it in ('coords', 'buffer'):
+        if it in ('coords', 'buffer', 'signedm'):
             return I(pred_forms, case)
         if it == 'jder':
             s, a, b, j = case['s'], case['alpha'], case['beta'], case['j']
@@ -1414,6 +1422,10 @@ def correspondence(ctx):
     for case in buffer_cases(rng, ctx.scale(120, 1200)):
         ctx.case('buffer', case, nontrivial=True, tag=f'{case["routine"]}/{case["fill"]}')
         run_pred('buffer', case)
+        if case['routine'] == 'q2dder':
+            sm = dict(case, item='signedm')
+            ctx.case('signedm', sm, nontrivial=True, tag=f'm=-{sm["m"]}')
+            run_pred('signedm', sm)
 
     # ------------------------------------------------ conic base surfaces and Q2d_and_der (x/raytracing/surfaces.py)
     S = _surf()
